@@ -215,14 +215,14 @@ Proof.
   exists r'. split; [exact E|]. split; [exact L|]. split; [apply W|exact A].
 Qed.
 
-(* repetition (x * n): the guard computes the exact length len(x) * n or fails
-   (count not a 32-bit value, or 2^30 elements or more); it never wraps *)
+(* repetition (x * n): the guard computes the exact length len(x) * max(n, 0) or fails
+   (positive count that is not a 32-bit value, or 2^30 elements or more); it never wraps *)
 Theorem repeat_len_exact :
   forall I (n : T I) len, canonical I n = true -> 0 <= len <= max_int64 ->
     repeat_len I len n =
       if len =? 0 then Ok 0
-      else if negb (in_int32 (value I n)) then Err
       else if value I n <? 1 then Ok 0
+      else if negb (in_int32 (value I n)) then Err
       else if maxAlloc <=? len * value I n then Err else Ok (len * value I n).
 Proof. exact repeat_len_exact. Qed.
 
@@ -273,6 +273,22 @@ Theorem int_to_float_paths :
     Int_Float I x = if 1024 <? bitlen (value I x) then S754_infinity (value I x <? 0) else Z_to_float (value I x).
 Proof. exact Int_Float_lemma. Qed.
 
+(* Full statement: for every int x, x.Float() is the binary64 value nearest to x
+   (ties to even) and float(x) fails iff that is an infinity.  Proved here: the
+   conversion is EXACT for every |x| < 2^53 (float(x) == x and int(float(x)) == x,
+   both representations).  Missing: the rounding direction for ints that need
+   more than 53 bits -- that part is SpecFloat's binary_normalize (the IEEE
+   definition, taken as the specification of the hardware / big.Float
+   conversion) and is checked per observed case by Cases.nearest_even, an
+   independent neighbour test with SFsucc / SFpred. *)
+Theorem int_to_float_exact_partial :
+  forall I (x : T I), canonical I x = true -> Z.abs (value I x) < 2 ^ 53 ->
+    valid_float (Int_Float I x) = true /\
+    spec_int_of_float (Int_Float I x) = Some (value I x) /\
+    spec_cmp_int_float (value I x) (Int_Float I x) = Eq /\
+    finiteFloat I x = Ok (Int_Float I x).
+Proof. exact Int_Float_exact_lemma. Qed.
+
 (* ------------------------------------------------------------------ text *)
 
 (* printing in any base 2..36 and reading back is the identity, for all z *)
@@ -307,3 +323,11 @@ Example range_float_premises_hold :
   range_ [0; 10; 2] = Ok q /\ slice_no_overflow q 1 4 2 = true /\ seq_len 1 4 2 = 2 /\
   range_slice q 1 4 2 = Some {| r_start := 2; r_stop := 8; r_step := 4; r_len := 2 |}.
 Proof. vm_compute. repeat split. Qed.
+
+Example text_repeat_premises_hold :
+  2 <= 36 <= 36 /\ print_int 36 (-1295) = [45; 122; 122] /\ parseInt [45; 122; 122] 36 = Some (-1295) /\
+  print_prefixed 16 255 = [48; 120; 102; 102] /\ parseInt [48; 120; 102; 102] 0 = Some 255 /\
+  canonical union_impl (Small 5) = true /\ repeat_len union_impl 3 (Small 5) = Ok 15 /\
+  repeat_len union_impl 3 (Big 4294967296) = Err /\
+  Z.abs (value union_impl (Small (-7))) < 2 ^ 53 /\ finiteFloat union_impl (Small (-7)) = Ok (S754_finite true 7881299347898368 (-50)).
+Proof. vm_compute. repeat split; try discriminate. Qed.
